@@ -412,7 +412,7 @@ func main() {
 	if sum.Metrics["notifications_delivered_in_one_stream"] < 3 {
 		ev.EngineError("vacuous exploration: no explored stream delivered 3 notifications to a callback (max %d)", sum.Metrics["notifications_delivered_in_one_stream"])
 	}
-	r.Set("rule", "predicate: old in 8 boundary values x every new in 0..2^24-1 x dt in {0,127s,128s,128s+1ns,129s} (exhaustive) against the RFC 7641 §3.4 formula; streams: registration answered by {2.05+Observe, 2.05, 2.03+Observe, 4.04, nothing}, then every sequence up to the depth over 6 sequence numbers x 3 inter-arrival times (virtual clock) for either of 1-2 observations, cancel at every position (peer answers the deregistration), every event applied to a settled connection plus a preemption-bounded variant; oracle: callback only for fresher notifications relative to the last delivered one, own token only, success only on 2.05/2.03, nothing delivered that was injected after Cancel returned or registration failed; distinct outcome = distinct (history, callback logs)")
+	r.Set("rule", "predicate: old in 8 boundary values x every new in 0..2^24-1 x dt in {0,127s,128s,128s+1ns,129s} (exhaustive) against the RFC 7641 §3.4 formula; streams: registration answered by {2.05+Observe, 2.05, 2.03+Observe, 4.04, nothing}, then every sequence up to the depth over 6 sequence numbers x 3 inter-arrival times (virtual clock) for either of 1-2 observations, cancel at every position (peer answers the deregistration), every event applied to a settled connection plus a preemption-bounded variant; oracle: callback only for fresher notifications relative to the last delivered one, own token only, success only on 2.05/2.03, nothing delivered that was injected after Cancel returned or registration failed; distinct outcome = distinct (history, callback logs); deregistration-unanswered variants: Cancel ends with its deadline, later notifications must not reach the callback")
 	r.Sample(map[string]any{"scenario": scs[0].Name, "history": "reg0:205obs notify0(seq=16777215,+0s) notify0(seq=0,+0s) notify0(seq=8388608,+2m9s)"})
 	r.Assume("safety reading: a dropped fresh notification is not a violation (DESIGN §7a C08)")
 	r.Finish()
